@@ -549,6 +549,19 @@ func pick3(n: int, a: string, b: string, c: string) => string {
 	return c
 }
 
+func firstUpper(s: string, n: int) => string {
+	for i, r := range s {
+		t := s[:i]
+		if int(r)%7 == n%7 {
+			return t + "^"
+		}
+		if i > 20 {
+			break
+		}
+	}
+	return s + "$"
+}
+
 func c0(c: Closer) => int {
 	return len(c.Rows())
 }
@@ -976,6 +989,15 @@ func (g *gen) formOps3() {
 	g.add("three results through an interface", fmt.Sprintf("bs := &Base{note: %s, hist: %s}\nm: Multi = bs\nx, y, z := m.Split(c)\n_, y2, _ := m.Split(b)\nif len(x) > 150 {\nx = x[:20]\n}\nif len(y) > 40 {\ny = y[:4]\n}\n%s = x\n%s = y\nreturn hStr(x) + hSI(y) + hSI(y2) + hN(z)", str("b"), si("c"), str("a"), si("a")))
 	g.add("named slice type with method", fmt.Sprintf("v := Strs{%s, %s}\nv = append(v, \"t\")\nw := v[1:]\nr := v.Join() + w.Join()\nif len(r) > 150 {\nr = r[:20]\n}\n%s = r\nreturn hStr(r)", str("b"), str("c"), str("a")))
 	g.add("value selected among call arguments", fmt.Sprintf("r := pick3(c, %s, %s+\"q\", itoa(b))\n%s = r\nreturn hStr(r)", str("b"), str("c"), str("a")))
+	if g.has(kSliceStr) {
+		ss := func(i string) string { return S(kSliceStr, i) }
+		g.add("range over []string with early break and continue", fmt.Sprintf("acc := \"\"\nfor i, x := range %s {\nif i%%2 == c%%2 {\ncontinue\n}\nif len(acc) > 40 || i > b%%5 {\nbreak\n}\nacc += x\n}\n%s = acc\nreturn hStr(acc)", ss("a"), str("b")))
+	}
+	if g.has(kMapIntStr) {
+		m := func(i string) string { return S(kMapIntStr, i) }
+		g.add("range over map with early break, result depends only on counts", fmt.Sprintf("n := 0\ntot := 0\nfor k, v := range %s {\n_ = k\nn++\ntot += len(v)\nif n >= 1+b%%3 {\nbreak\n}\n}\nfull := 0\nfor k2, v := range %s {\n_ = k2\nfull += len(v)\n}\nif n > len(%s) {\nreturn -1\n}\nreturn i64(n)*1000 + i64(full)", m("a"), m("a"), m("a")))
+	}
+	g.add("range over string with early return from helper", fmt.Sprintf("r := firstUpper(%s, c)\n%s = r\nreturn hStr(r)", str("b"), str("a")))
 	if g.has(kMapIntPair) {
 		m := func(i string) string { return S(kMapIntPair, i) }
 		g.add("copy-modify-store of a map value", fmt.Sprintf("p, ok := %s[b%%8]\nif ok {\np.v = append(p.v, c)\nif len(p.v) > 30 {\np.v = nil\n}\np.s = p.s + \"m\"\nif len(p.s) > 60 {\np.s = \"\"\n}\n%s[b%%8] = p\n}\nreturn hMIP(%s)", m("a"), m("a"), m("a")))
